@@ -695,6 +695,75 @@ def r14_field_list_fits_the_record(ctx, rule="C18.R14"):
     ctx.require(rule, 1)
 
 
+def _has_cycle(prog, f, depth=1):
+    """the function (or a closure of it, or - one level - a private helper of its file) repeats something:
+    a CFG cycle, or an iterator adaptor that applies a closure to every item"""
+    body = f.body
+    for b in range(body.nblocks):
+        if body.is_cleanup(b):
+            continue
+        if b in {x for s2 in body.succ(b) for x in body.reachable(s2)}:
+            return True
+    for _b, t in body.calls():
+        nm = (t.get("cpath") or "").split("::")[-1]
+        if nm in ("map", "for_each", "try_for_each", "try_fold", "fold", "all", "any", "collect", "filter_map") \
+                and "iter" in (t.get("cpath") or "").lower():
+            return True
+    if depth:
+        for c in prog.call_edges(f):
+            g = prog.fns.get(c)
+            if g is not None and g.file == f.file and g.id != f.id and g.body is not None and _has_cycle(prog, g, depth - 1):
+                return True
+    return False
+
+
+def _bounds_the_argument_count(lint):
+    """lint() compares the length of the argument list with a constant: the list has a fixed / bounded shape"""
+    body = lint.body
+    pv = mir.Prov(body)
+    for blk in body.blocks:
+        if blk.get("c"):
+            continue
+        for st in blk["s"]:
+            r = st.get("r", {})
+            if st["k"] == "assign" and r.get("k") == "bin" and r.get("op") in ("Eq", "Ne", "Lt", "Le", "Gt", "Ge"):
+                sides = [pv.of_operand(r["a"]), pv.of_operand(r["b"])]
+                has_len = any(mir.origin_mentions(o, lambda z: z[0] == "call" and z[1].split("::")[-1] == "len") for o in sides)
+                has_const = any(mir.strip_all(o)[0] == "const" for o in sides)
+                if has_len and has_const:
+                    return True
+    return False
+
+
+def r15_variadic_builtins_handle_every_argument(ctx, rule="C18.R15"):
+    """`CLOSE #1, #2, #3` closes three files.  Where the checker of a built-in statement accepts any number of
+    arguments - its lint() walks the argument list in a loop - the statement's run() walks it too (a loop, or
+    an iterator adaptor over the arguments).  A run() that reads a fixed position handles the first file number
+    and silently ignores the rest: the later handles stay open, a following OPEN fails with File already open,
+    what is written to them afterwards lands in the file."""
+    prog = ctx.prog
+    from . import builtins as bi
+    n = 0
+    for fn in sorted(prog.fns.values(), key=lambda f: f.id):
+        if fn.crate != "rusty_basic" or fn.name != "run" or fn.kind != "fn" or fn.body is None:
+            continue
+        import re as _re
+        m = _re.search(r"interpreter::built_ins::(\w+)::run$", fn.path)
+        if not m:
+            continue
+        lint = bi.lint_side(prog, m.group(1))
+        if lint is None or not _has_cycle(prog, lint, 0) or _bounds_the_argument_count(lint):
+            continue
+        n += 1
+        ctx.decide(_has_cycle(prog, fn), rule, "%s:%s" % (rule, m.group(1)), fn.loc,
+                   "lint() and run() both walk the argument list",
+                   "the checker of %s accepts an argument list of any length (its lint() loops over it), but run() does "
+                   "not repeat anything: only the arguments at fixed positions are handled, the others are ignored "
+                   "(`CLOSE #1, #2` leaves #2 open)" % m.group(1).upper())
+    ctx.analysed_units(rule, variadic_builtins=n)
+    ctx.require(rule, 2)
+
+
 def run(ctx):
     common.install(ctx)
     r1_open_guard(ctx)
@@ -712,3 +781,4 @@ def run(ctx):
     c01.r3_determinism(ctx, "C18.R12")
     r13_recorded_index_exists(ctx)
     r14_field_list_fits_the_record(ctx)
+    r15_variadic_builtins_handle_every_argument(ctx)
